@@ -26,6 +26,15 @@ func (r *Rng) U64() uint64 {
 	return z ^ (z >> 31)
 }
 
+// Peek - a value derived from the current state and a salt; the stream is not advanced (side decisions added to a
+// generator later do not shift what the existing draws produce).
+func (r *Rng) Peek(salt uint64) uint64 {
+	z := r.s ^ (salt * 0xD6E8FEB86659FD93)
+	z = (z ^ (z >> 30)) * 0xBF58476D1CE4E5B9
+	z = (z ^ (z >> 27)) * 0x94D049BB133111EB
+	return z ^ (z >> 31)
+}
+
 // Intn - uniform in [0,n).
 func (r *Rng) Intn(n int) int {
 	if n <= 0 {
